@@ -21,20 +21,20 @@ import (
 
 // Job is what verifctl asks one worker process to do.
 type Job struct {
-	Prop      string `json:"prop"`
-	Tier      string `json:"tier"`
-	Seed      int64  `json:"seed"`
-	Worker    int    `json:"worker"`
-	NWorkers  int    `json:"nworkers"`
-	BudgetSec int    `json:"budget_sec"`
-	MaxRuns   int    `json:"max_runs"`
-	RunOffset int    `json:"run_offset"`
-	Out       string `json:"out"`
-	Replay    string `json:"replay,omitempty"`   // replay this file only
-	Minimise  bool   `json:"minimise,omitempty"` // minimise violations found
-	MinBudget int    `json:"min_budget_sec,omitempty"`
-	TraceAll  bool   `json:"trace_all,omitempty"` // determinism self-test: log every run's trace hash
-	Status    string `json:"status"`              // file updated before each run (for crash attribution)
+	Prop      string         `json:"prop"`
+	Tier      string         `json:"tier"`
+	Seed      int64          `json:"seed"`
+	Worker    int            `json:"worker"`
+	NWorkers  int            `json:"nworkers"`
+	BudgetSec int            `json:"budget_sec"`
+	MaxRuns   int            `json:"max_runs"`
+	RunOffset int            `json:"run_offset"`
+	Out       string         `json:"out"`
+	Replay    string         `json:"replay,omitempty"`   // replay this file only
+	Minimise  bool           `json:"minimise,omitempty"` // minimise violations found
+	MinBudget int            `json:"min_budget_sec,omitempty"`
+	TraceAll  bool           `json:"trace_all,omitempty"` // determinism self-test: log every run's trace hash
+	Status    string         `json:"status"`              // file updated before each run (for crash attribution)
 	Known     []KnownFinding `json:"known,omitempty"`
 }
 
@@ -56,18 +56,18 @@ type Violation struct {
 
 // Replay is the replay file format (DESIGN.md 4).
 type Replay struct {
-	Prop      string          `json:"property"`
-	Scenario  string          `json:"scenario"`
-	Violation Violation       `json:"violation"`
-	Seed      int64           `json:"seed"`
-	Plan      json.RawMessage `json:"plan"`
-	Choices   []simrt.Choice  `json:"choices"`
-	ChoiceSeed int64          `json:"choice_seed,omitempty"`
-	Trace     []TraceStep     `json:"schedule_trace,omitempty"`
-	Faults    map[string]int  `json:"faults_fired,omitempty"`
-	Minimised bool            `json:"minimised"`
-	Note      string          `json:"note,omitempty"`
-	TreeHash  string          `json:"tree_hash,omitempty"`
+	Prop       string           `json:"property"`
+	Scenario   string           `json:"scenario"`
+	Violation  Violation        `json:"violation"`
+	Seed       int64            `json:"seed"`
+	Plan       json.RawMessage  `json:"plan"`
+	Choices    simrt.ChoiceList `json:"choices"`
+	ChoiceSeed int64            `json:"choice_seed,omitempty"`
+	Trace      []TraceStep      `json:"schedule_trace,omitempty"`
+	Faults     map[string]int   `json:"faults_fired,omitempty"`
+	Minimised  bool             `json:"minimised"`
+	Note       string           `json:"note,omitempty"`
+	TreeHash   string           `json:"tree_hash,omitempty"`
 }
 
 // TraceStep is one scheduling decision in human-readable form.
@@ -132,27 +132,27 @@ func defScenario(s *Scenario) *Scenario {
 
 // Result is the per-worker output file.
 type Result struct {
-	Prop        string            `json:"prop"`
-	Worker      int               `json:"worker"`
-	Runs        int               `json:"runs"`
-	Steps       uint64            `json:"steps"`
-	SimTimeMs   int64             `json:"sim_time_ms"`
-	WallMs      int64             `json:"wall_ms"`
-	Faults      map[string]int    `json:"faults"`
-	Probes      map[string]int    `json:"probes"`
-	Scenarios   map[string]int    `json:"scenarios"`
-	Distinct    []uint64          `json:"distinct"`      // hashes of (plan, schedule) of non-trivial runs
-	ProjDistinct []uint64         `json:"proj_distinct"` // distinct schedule projections
-	StateDistinct []uint64        `json:"state_distinct"`
-	Inconclusive map[string]int   `json:"inconclusive"`
-	Violations  []Replay          `json:"violations"`
-	Known       map[string]int    `json:"known"`
-	KnownText   map[string]string `json:"known_text"`
-	Samples     []interface{}     `json:"samples"`
-	TraceLog    []string          `json:"trace_log,omitempty"`
-	RaceBuild   bool              `json:"race_build"`
-	Error       string            `json:"error,omitempty"`
-	RaceNotes   map[string]int    `json:"race_notes,omitempty"`
+	Prop          string            `json:"prop"`
+	Worker        int               `json:"worker"`
+	Runs          int               `json:"runs"`
+	Steps         uint64            `json:"steps"`
+	SimTimeMs     int64             `json:"sim_time_ms"`
+	WallMs        int64             `json:"wall_ms"`
+	Faults        map[string]int    `json:"faults"`
+	Probes        map[string]int    `json:"probes"`
+	Scenarios     map[string]int    `json:"scenarios"`
+	Distinct      []uint64          `json:"distinct"`      // hashes of (plan, schedule) of non-trivial runs
+	ProjDistinct  []uint64          `json:"proj_distinct"` // distinct schedule projections
+	StateDistinct []uint64          `json:"state_distinct"`
+	Inconclusive  map[string]int    `json:"inconclusive"`
+	Violations    []Replay          `json:"violations"`
+	Known         map[string]int    `json:"known"`
+	KnownText     map[string]string `json:"known_text"`
+	Samples       []interface{}     `json:"samples"`
+	TraceLog      []string          `json:"trace_log,omitempty"`
+	RaceBuild     bool              `json:"race_build"`
+	Error         string            `json:"error,omitempty"`
+	RaceNotes     map[string]int    `json:"race_notes,omitempty"`
 }
 
 func splitmix(x uint64) uint64 {
